@@ -454,6 +454,14 @@ func (ctx *Context) evaluate() {
 
 	var lastPop *VMValue
 	stackPop := func() *VMValue {
+		if e.top <= 0 {
+			// 字节码有误(弹出空栈)，报错而不是越界崩溃
+			if ctx.Error == nil {
+				ctx.Error = errors.New("E3: 无效的表达式(执行栈为空)")
+			}
+			lastPop = NewNullVal()
+			return lastPop
+		}
 		v := &e.stack[e.top-1]
 		e.top -= 1
 		lastPop = v
@@ -813,6 +821,10 @@ func (ctx *Context) evaluate() {
 			stackPush(val)
 
 		case typeStoreName:
+			if e.top <= 0 {
+				ctx.Error = errors.New("E3: 无效的表达式(执行栈为空)")
+				return
+			}
 			v := e.stack[e.top-1].Clone()
 			name := code.Value.(string)
 
@@ -823,6 +835,10 @@ func (ctx *Context) evaluate() {
 
 		case typeJe, typeJeDup:
 			v := stackPop()
+			if _, ok := code.Value.(IntType); !ok {
+				ctx.Error = errors.New("E3: 无效的表达式(跳转目标缺失)")
+				return
+			}
 			if v.AsBool() {
 				opIndex += int(code.Value.(IntType))
 				if code.T == typeJeDup {
